@@ -173,7 +173,7 @@ Proof.
   assert (MK : forall st' d l b' k, bucket_rel c st' b' -> rnow st' = k -> 0 <= k ->
             Rel (mkTS st' d l) (mkSp b' k d l)).
   { intros. unfold Rel; cbn. auto. }
-  destruct o as [i now n rescue brk|ms| | |i|i now n rescue r|i now n rescue|i now n rescue brk]; cbn [tstep sp_tstep dt tstore tdown tinsts sp_bucket sp_clock sp_tdown sp_insts].
+  destruct o as [i now n rescue brk|ms| | |i|i now n rescue r|i now n rescue|i|i now n rescue brk]; cbn [tstep sp_tstep dt tstore tdown tinsts sp_bucket sp_clock sp_tdown sp_insts].
   - destruct (nth_error l i) as [t|] eqn:Hn; [|cbn [fst snd]; split; [reflexivity|split; [exact HR|cbn; lia]]].
     unfold reserve.
     destruct (alive t); cbn [negb].
@@ -198,6 +198,8 @@ Proof.
     destruct (token_reply t r rescue) as [t' ob]. cbn [fst snd].
     split; [reflexivity|]. split; [|cbn; lia]. apply MK; auto.
   - destruct (nth_error l i) as [t|]; cbn [fst snd]; (split; [reflexivity|split; [exact HR|cbn; lia]]).
+  - destruct (nth_error l i) as [t|]; [|cbn [fst snd]; split; [reflexivity|split; [exact HR|cbn; lia]]].
+    destruct (monitor t); cbn [fst snd]; (split; [reflexivity|]); (split; [|cbn; lia]); auto.
   - destruct (nth_error l i) as [t|] eqn:Hn; [|cbn [fst snd]; split; [reflexivity|split; [exact HR|cbn; lia]]].
     unfold reserve_late.
     destruct (d || negb brk)%bool.
@@ -213,7 +215,7 @@ Qed.
 
 Lemma twf_cons clock o ops : twf clock (o :: ops) = true -> op_ok clock o /\ twf (clock + dt o) ops = true.
 Proof.
-  destruct o as [i now n rescue brk|ms| | |i|i now n rescue r|i now n rescue|i now n rescue brk]; cbn [twf op_ok dt]; rewrite ?Z.add_0_r; intro H; auto.
+  destruct o as [i now n rescue brk|ms| | |i|i now n rescue r|i now n rescue|i|i now n rescue brk]; cbn [twf op_ok dt]; rewrite ?Z.add_0_r; intro H; auto.
   - apply andb_true_iff in H. destruct H as [H H3]. apply andb_true_iff in H. destruct H as [H1 H2].
     apply Z.eqb_eq in H1. apply Z.leb_le in H2. auto.
   - apply andb_true_iff in H. destruct H as [H1 H2]. apply Z.leb_le in H1. auto.
@@ -253,7 +255,7 @@ Proof.
   - cbv zeta. split; [|split; [auto|lia]].
     pose proof (level_lipschitz (rate c) (burst c) ltac:(lia) (sp_bucket a) t0 (unix_s (sp_clock a)) Ht0). lia.
   - apply twf_cons in Hwf. destruct Hwf as [Hok Hwf].
-    destruct o as [i now n rescue brk|ms| | |i|i now n rescue r|i now n rescue|i now n rescue brk]; cbn [sp_tstep dt] in *; rewrite ?Z.add_0_r in Hwf.
+    destruct o as [i now n rescue brk|ms| | |i|i now n rescue r|i now n rescue|i|i now n rescue brk]; cbn [sp_tstep dt] in *; rewrite ?Z.add_0_r in Hwf.
     + destruct (nth_error (sp_insts a) i) as [t|]; [|cbn [fst]; apply IH; auto].
       destruct (alive t); cbn [negb]; [|cbn [fst snd]; destruct rescue; apply IH; auto].
       destruct (sp_tdown a || negb brk)%bool; [cbn [fst snd]; destruct rescue; apply (IH (mkSp _ _ _ _)); auto|].
@@ -279,6 +281,8 @@ Proof.
       destruct (alive t); cbn [negb]; [|cbn [fst snd]; apply IH; auto].
       destruct (token_reply t r rescue) as [t' ob]. cbn [fst snd]. apply (IH (mkSp _ _ _ _)); auto.
     + destruct (nth_error (sp_insts a) i) as [t|]; cbn [fst snd]; apply IH; auto.
+    + destruct (nth_error (sp_insts a) i) as [t|]; [|cbn [fst]; apply IH; auto].
+      destruct (monitor t); cbn [fst]; [apply (IH (mkSp _ _ _ _))|apply IH]; auto.
     + destruct (nth_error (sp_insts a) i) as [t|]; [|cbn [fst]; apply IH; auto].
       destruct (sp_tdown a || negb brk)%bool; [cbn [fst snd]; destruct rescue; apply (IH (mkSp _ _ _ _)); auto|].
       destruct Hok as [-> Hn].
